@@ -13,7 +13,8 @@ CONFIG = {
                  "types.initBig5 (both \"already loaded\" guards, error returns: state machine over the two maps)", "types.InitConfig/postConfig (order: config, time location, initBig5)",
                  "initgin.InitAllConfig (order of the packages' InitConfig calls, regenerated) with ptttype.setBBSName -> BBSNAME_BIG5",
                  "the loader's unconditional lines[1:] against the regenerated first line of each table file",
-                 "the loader's accept rule (exactly two ' '-separated fields) against rows by content (first two hex fields, whatever follows): droppedRows, regenerated counts"],
+                 "the loader's accept rule (exactly two ' '-separated fields) against rows by content (first two hex fields, whatever follows): droppedRows, regenerated counts",
+                 "the loaded Go map is last-wins: the table files must be functions of their key column (regenerated distinct-key counts, nodup theorem)"],
     "assumptions": ["start ops: the start-up program is compiled inside the repository's module with go build -overlay (needs the go toolchain and the repository's module cache at run time)",
                     "table files are pure ASCII (checked on every run: `wf` op)",
                     "file I/O is a function path -> content-or-error; rows inserted before a panic inside the row loop are not kept by the model (no generated history parses a panicking file)",
